@@ -36,6 +36,41 @@ ROOT = 'SpectroscopicInstrument'
 OUT = os.path.join(LEAN, 'Cherab', 'Gen', 'InstrumentEdges.lean')
 KNOWN_PREFIX = 'C16:%s:uninitialised:%s'          # signature of an open known finding that excuses an init gap
 
+# --- reference flow (aliasing of caller-owned containers) ---------------------------------------------------------------
+# An argument of a setter / __init__ that the function iterates over or indexes is a *container* handed over by the caller.
+# The taint item ('raw', arg) marks values that may still be (or contain) the caller's own mutable object.  Calls in
+# DEEP_COPY produce a fresh object (raw is dropped); arithmetic / comparisons produce fresh values; everything else
+# (tuple(), list(), np.asarray(), slicing, attribute access, unknown functions, list.append) keeps the mark.  An instance
+# attribute assigned a raw value is listed in the table's `aliased`; the obligation `no_alias_*` demands
+# aliased ⊆ DOCUMENTED_ALIASING (behaviour of the tree as first read, kept as an observation, notes/C16.md).
+DEEP_COPY = {'np.array', 'numpy.array', 'np.copy', 'numpy.copy', 'copy.deepcopy', 'deepcopy', 'str', 'int', 'float', 'bool',
+             'complex', 'len', 'np.deg2rad', 'np.rad2deg', 'np.zeros', 'np.ones', 'np.empty', 'np.diff', 'np.any', 'np.all',
+             'np.sort', 'np.argsort', 'np.float64', 'isinstance', 'abs', 'sum'}
+DOCUMENTED_ALIASING = {('Polychromator', '_filters'), ('CzernyTurnerSpectrometer', '_accommodated_spectra')}
+
+
+def _dotted(f):
+    if isinstance(f, ast.Name):
+        return f.id
+    if isinstance(f, ast.Attribute):
+        b = _dotted(f.value)
+        return b + '.' + f.attr if b else None
+    return None
+
+
+def _container_args(fn):
+    """arguments the function iterates over / indexes / takes the length of"""
+    names = {a.arg for a in fn.args.args[1:]}
+    out = set()
+    for n in ast.walk(fn):
+        if isinstance(n, (ast.For, ast.comprehension)) and isinstance(n.iter, ast.Name) and n.iter.id in names:
+            out.add(n.iter.id)
+        elif isinstance(n, ast.Subscript) and isinstance(n.value, ast.Name) and n.value.id in names:
+            out.add(n.value.id)
+        elif isinstance(n, ast.Starred) and isinstance(n.value, ast.Name) and n.value.id in names:
+            out.add(n.value.id)
+    return out
+
 
 # ------------------------------------------------------------------------------------------------ source model
 class Cls:
@@ -107,6 +142,7 @@ class Flat:
         self.setters = []        # (property name, method id)
         self.getters = []        # (public name, method id)
         self.abstract = False
+        self.aliased = {}        # attr name -> sorted list of 'method:arg' through which a caller-owned container reaches it
 
     # -- resolution along the MRO
     def find_method(self, name, start=0):
@@ -174,7 +210,8 @@ class FnScan:
         self.selfname = args[0] if args else 'self'
         self.args = set(args[1:]) | ({fn.args.vararg.arg} if fn.args.vararg else set()) | \
             ({fn.args.kwarg.arg} if fn.args.kwarg else set()) | {a.arg for a in fn.args.kwonlyargs}
-        self.env = {}            # local name -> set of taint items ('arg',n) | ('attr',a) | ('meth',mid)
+        self.env = {}            # local name -> set of taint items ('arg',n) | ('attr',a) | ('meth',mid) | ('raw',n)
+        self.containers = _container_args(fn) if role in ('set', 'init') else set()
         self.out = None
 
     # -- taint helpers
@@ -184,9 +221,15 @@ class FnScan:
             if n in self.args:
                 t.add(('arg', n))
             t |= self.env.get(n, set())
+            t |= self.rawenv.get(n, set())
         return t
 
-    def add_env(self, name, t):
+    def add_env(self, name, t, strong=False):
+        # reference marks are tracked in statement order (a rebinding `x = np.array(x)` clears them: strong update);
+        # all other taint is flow-insensitive
+        raw = {x for x in t if x[0] == 'raw'}
+        t = t - raw
+        self.rawenv[name] = raw if strong else (self.rawenv.get(name, set()) | raw)
         if name in self.args:
             return
         old = self.env.get(name, set())
@@ -260,6 +303,9 @@ class FnScan:
             if target is not None:
                 emit(('call', target))
                 t.add(('meth', target))
+            copies = _dotted(f) in DEEP_COPY and not any(k.arg == 'copy' for k in e.keywords)
+            if copies or target is not None:
+                t = {x for x in t if x[0] != 'raw'}
             return t
         if isinstance(e, (ast.ListComp, ast.SetComp, ast.GeneratorExp, ast.DictComp)):
             b = dict(bound)
@@ -284,6 +330,8 @@ class FnScan:
         for child in ast.iter_child_nodes(e):
             if isinstance(child, ast.expr):
                 t |= self.expr(child, emit, bound)
+        if isinstance(e, (ast.BinOp, ast.UnaryOp, ast.Compare, ast.JoinedStr)):
+            t = {x for x in t if x[0] != 'raw'}      # fresh value
         return t
 
     # -- assignment targets
@@ -292,7 +340,7 @@ class FnScan:
             for el in tgt.elts:
                 self.assign_target(el, t, False, emit)
         elif isinstance(tgt, ast.Name):
-            self.add_env(tgt.id, t)
+            self.add_env(tgt.id, t, strong=not getattr(self, '_weak', False))
         elif isinstance(tgt, ast.Attribute) and self.is_self(tgt.value):
             p = self.flat.find_prop(tgt.attr)
             if p is not None:
@@ -306,6 +354,9 @@ class FnScan:
             if value_is_none:
                 emit(('setNone', a))
             else:
+                for k, x in t:
+                    if k == 'raw':
+                        self.flat.aliased.setdefault(tgt.attr, set()).add('%s:%s' % (self.fn.name, x))
                 emit(('assign', a, any(k == 'arg' for k, _ in t),
                       sorted(x for k, x in t if k == 'attr' and x != a), sorted(x for k, x in t if k == 'meth')))
         else:
@@ -384,7 +435,9 @@ class FnScan:
             a = self.none_test(s.test)
             if a is not None and not s.orelse:
                 body = []
+                weak, self._weak = getattr(self, '_weak', False), True      # conditional rebinding: weak update
                 self.block(s.body, body.append)
+                self._weak = weak
                 emit(('ifNone', self.flat.attr_id(a), len(body)))
                 for b in body:
                     emit(b)
@@ -396,10 +449,11 @@ class FnScan:
             return
         if isinstance(s, ast.For):
             t = self.expr(s.iter, emit)
-            for n in ast.walk(s.target):
-                if isinstance(n, ast.Name):
-                    self.add_env(n.id, t)
-            self.block(s.body, emit)
+            for rnd in (0, 1):                   # twice: reference marks may travel along the back edge
+                for n in ast.walk(s.target):
+                    if isinstance(n, ast.Name):
+                        self.add_env(n.id, t, strong=True)
+                self.block(s.body, (lambda st: None) if rnd == 0 else emit)
             if s.orelse:
                 emit(('unknown', 'for-else'))
             return
@@ -408,8 +462,9 @@ class FnScan:
     def run(self):
         if getattr(self.fn, '_verif_unknown_decorator', False):
             return [('unknown', 'decorator on ' + self.fn.name)]
-        for _ in range(8):                      # taint fixpoint (flow-insensitive)
+        for _ in range(8):                      # taint fixpoint (flow-insensitive; reference marks in statement order)
             self.changed = False
+            self.rawenv = {n: {('raw', n)} for n in self.containers}
             out = []
             self.block(self.fn.body, out.append)
             if not self.changed:
@@ -481,7 +536,9 @@ def table_dict(fl):
     """python mirror of the generated table (used by the harness to address setters/getters by name)"""
     return dict(name=fl.cname, attrs=list(fl.attrs), methods=list(fl.mnames),
                 bodies=[fl.bodies[i] for i in range(len(fl.mnames))], init=fl.init,
-                setters=list(fl.setters), getters=list(fl.getters), known=known_uninit(fl.cname))
+                setters=list(fl.setters), getters=list(fl.getters), known=known_uninit(fl.cname),
+                aliased={a: sorted(v) for a, v in fl.aliased.items()},
+                documented_aliasing=sorted(a for c, a in DOCUMENTED_ALIASING if c == fl.cname))
 
 
 def render(flats, abstract):
@@ -505,6 +562,10 @@ def render(flats, abstract):
         L.append('  getters := %s   -- %s' % (_nats([m for _, m in fl.getters]), ', '.join(n for n, _ in fl.getters)))
         kn = [fl.attrs.index(a) for a in known_uninit(fl.cname) if a in fl.attrs]
         L.append('  knownUninit := %s   -- open C16 entries of known_findings.json' % _nats(kn))
+        al = sorted(fl.attrs.index(a) for a in fl.aliased if a in fl.attrs)
+        L.append('  aliased := %s   -- %s' % (_nats(al), '; '.join('%s <- %s' % (a, ','.join(sorted(v))) for a, v in sorted(fl.aliased.items())) or 'none'))
+        doc = sorted(fl.attrs.index(a) for c, a in DOCUMENTED_ALIASING if c == fl.cname and a in fl.attrs)
+        L.append('  knownAliased := %s   -- documented: the caller\'s list is kept by reference' % _nats(doc))
         L.append('')
     L.append('def allTables : List ClassTable := [%s]' % ', '.join(_lname(f.cname) for f in flats))
     L.append('-- abstract classes (a reachable method is `raise NotImplementedError`), no table: %s' % ', '.join(abstract))
